@@ -211,7 +211,11 @@ func dateText(r *fw.Rand, f envs.DateFormat) string {
 var plainWords = []string{"bob", "Bob", "jim", "x", "ab", "Smith", "male", "Kigali", "hello", "O'Brien", "bob@nyaruka.com", "a_b", "v1.2", "日本語", "é", "ñandú", "I", "+12065551212", "12065551212", "555", "1234", "it's", "a-b", "a/b", "@bob", "twitter:bob", "tel:+12065551212", "mailto:bob@x.io", "x:y:z", "OR", "has", "1.5.2", "--", "+"}
 
 func textValue(r *fw.Rand) string {
-	switch r.Intn(10) {
+	switch r.Intn(12) {
+	case 10:
+		return confusableValue(r)
+	case 11:
+		return controlMixValue(r)
 	case 0, 1, 2:
 		return fw.Pick(r, plainWords)
 	case 3, 4:
